@@ -19,6 +19,8 @@ type c05tok string
 // build a fresh instance from reg/hdr/name ops; handlers are free of shared mutable state
 func c05build(ops []*Sx) (*flamego.Flame, bool) {
 	f := flamego.NewWithLogger(io.Discard)
+	flamego.SetEnv(flamego.EnvTypeProd)
+	f.Use(flamego.Recovery()) // every third route panics after answering: Recovery formats stacks concurrently
 	// three separate Use calls leave spare capacity in the middleware slice
 	f.Use(func(c flamego.Context) { c.Map(c05tok(c.Request().Header.Get("X-Tok"))) })
 	f.Use(func(c flamego.Context) { c.Next() })
@@ -56,6 +58,10 @@ func c05build(ops []*Sx) (*flamego.Flame, bool) {
 					url = c.URLPath("n0", "x", "1")
 				}()
 				body := fmt.Sprintf("%s tok=%s svc=%d url=%s", sb.String(), t, s.M1(), url)
+				if i%3 == 2 {
+					_, _ = c.ResponseWriter().Write([]byte(body))
+					panic("boom " + string(t))
+				}
 				if i%2 == 1 {
 					rd.PlainText(http.StatusOK, body)
 					return ""
